@@ -13,11 +13,11 @@ def main():
     rows = {}
     for path in sys.argv[1:]:
         for line in open(path):
-            m = re.match(r"== (C\d\d)/([AB]) ->(.*)", line)
+            m = re.match(r"== (C\d\d)/([AB]2?) ->(.*)", line)
             if m:
                 rows[(m.group(1), m.group(2))] = dict(x.split(":") for x in m.group(3).split())
     out = ["# Seeded changes: which check reports what", "",
-           "Each change was written by a fresh sub-agent that saw only the text of one property and a scratch",
+           "Each change was written by a fresh sub-agent that saw only the text of one property and a scratch (variants A, B: first wave; A2, B2: second wave, asked for subtle changes)",
            "worktree of /repo.  Confirmed here for every one: `demo.py` exits 0 on the unchanged tree and 1 on the",
            "changed tree, and the repository's test suite still passes with the change applied (the timing test",
            "test_nesting1, flaky under load and dropped from the pinned baseline, and test_window under heavy",
@@ -28,7 +28,7 @@ def main():
            "proof obligation no longer checks), . = the check stays silent.  Quick tier, seed 0.", "",
            "| seed | " + " | ".join(p[1:] for p in PROPS) + " |", "|---|" + "---|" * len(PROPS)]
     for p in PROPS:
-        for v in "AB":
+        for v in ("A", "B", "A2", "B2"):
             d = os.path.join(VERIF, "seeded", p, v)
             if not os.path.isdir(d):
                 continue
